@@ -76,6 +76,7 @@ type Step struct {
 	Lst      []Lstate `json:"lst"`    // unused
 	Reg      []EC     `json:"reg"`    // Manager.Endpoints()
 	Sess     int      `json:"sess"`
+	Conns    int      `json:"conns"` // c16: network connections of the listeners to the node that are still open
 	Adv      []EC     `json:"adv"` // cluster.State local endpoints
 	Gos      []EC     `json:"gos"` // live endpoint:* keys of the gossip state
 	Disabled bool     `json:"disabled"`
